@@ -13,6 +13,7 @@ THEOREM_NAMES = ["parse_print_tokens", "parse_print_tokens_one", "vanilla_rows_o
                  "vanilla_text_binary_text_counterexample", "tokeniser_bridge", "src_syms_ok",
                  "printed_line_tokenises", "source_line_text_roundtrip", "observe_id",
                  "print_depends_on_current_values", "parse_print_after_update", "parse_print_rows",
+                 "parse_unaffected_by_edits",
                  "custom_flavour_last_wins"]
 THEOREMS = [(M_, "NQ.C17." + n) for n in THEOREM_NAMES]
 TRANSLATORS = ["instr_table", "asm_tables"]
@@ -63,7 +64,8 @@ def run(ctx):
                 "whole random subroutines: text -> objects -> binary -> objects -> text; object histories: instructions "
                 "printed (str/debug_str/str(subroutine)), updated in place (field assignment, property setters line/"
                 "qreg/angle_num/..., instantiate, NV transpiler re-targeting branches) and printed again, judged "
-                "against the current object; user flavours (subclass hook appending classes that re-use a mnemonic "
+                "against the current object; parser histories (parse, edit the parsed operands / nested registers / "
+                "instruction lists in place, parse the same and other texts again, fresh-interpreter parse); user flavours (subclass hook appending classes that re-use a mnemonic "
                 "and/or opcode, core overrides, double replacements) with the model table built in the same "
                 "order; binary leg through Deserializer and deserialize(); malformed stream: "
                 "single/double edits of printed lines (deleted/inserted characters, doubled spaces, swapped/"
@@ -336,6 +338,74 @@ def run(ctx):
             elif by_mn[c.mnemonic] is c and by_id[c.id] is c and rt.get("lines2") != [s_]:
                 res.failures.append({"what": "user flavour: text -> binary -> text is not stable", "kf": None,
                                      "input": {"flavour": uname, "i": j, "text": s_, "result": rt}})
+
+    # -------------------------------------------------- stream P: parser histories
+    # parse(text) must be a function of the text only: parse, edit the parsed objects in place (operand
+    # objects with their nested registers / addresses, operand fields, instruction lists), parse the same
+    # and other texts again -- every parse equals the model's parse of its text, an edit of one result
+    # shows in no other result, and at the end a fresh interpreter parses the same texts identically
+    ppool = []
+    seen_txt = set()
+    fav = [(f, i) for f, i in cases if any(k in ("entry", "slice") for k in H.shape_of(type(i)))]
+    for _ in range(400 if thorough else 120):
+        fname, inst = rng.choice(fav) if rng.random() < 0.7 else rng.choice(cases)
+        lines = [X.real_print(inst)]
+        r = rng.random()
+        if r < 0.3:
+            lines = lines + lines                       # the same line twice in one text
+        elif r < 0.6:
+            lines += [X.real_print(rng.choice(fav)[1]) for _ in range(rng.randrange(1, 3))]
+        # only lines every flavour's table knows are mixed: keep the flavour of the first
+        lines = [ln for ln in lines if ln.split(" ")[0] in {c.mnemonic for c in H.flavour_classes(fname)}]
+        if (fname, tuple(lines)) not in seen_txt:
+            seen_txt.add((fname, tuple(lines)))
+            ppool.append([fname, lines, None])
+    # source forms with integer indices share operand strings with the printed ones
+    for t in (["store R0 @3[R1]"], ["store R0 @3[5]", "load R2 @3[R1]"], ["wait_all @3[R1:R2]", "wait_all @3[R1:R2]"],
+              ["undef @3[R1]", "store R0 @3[R1]"]):
+        ppool.append(["vanilla", t, None])
+    refs = ctx.driver.batch([{"op": "text.parse", "fl": f, "lines": ls} for f, ls, _ in ppool])
+    ppool = [(f, ls, r["is"]) for (f, ls, _), r in zip(ppool, refs) if "is" in r]
+    # the witness of seeded change C17_13 first: parse, rename the index register in the copy, parse again
+    wit = [p_ for p_ in ppool if p_[1] == ["store R0 @3[R1]"]]
+    n_ph = 1500 if thorough else 300
+    for t in range(n_ph):
+        res.evaluations += 1
+        res.count("parser-history")
+        if t == 0 and wit:
+            from netqasm.lang import operand as _op
+            from netqasm.lang.encoding import RegisterName as _RN
+            steps, problems = [], []
+            rp1, sub1 = X.real_parse("vanilla", wit[0][1])
+            if sub1 is not None:
+                sub1.instructions[0].operands[1].index = _op.Register(_RN.R, 12)
+            rp2, _s2 = X.real_parse("vanilla", wit[0][1])
+            steps = [{"parse": wit[0][1]}, {"mutate": "operand-object", "attr": "index", "value": [0, 12]},
+                     {"parse": wit[0][1]}]
+            if rp1 != {"is": wit[0][2]} or rp2 != {"is": wit[0][2]}:
+                problems.append({"what": "a parse differs from the reference parse of the same text",
+                                 "reference": wit[0][2], "first": rp1, "second": rp2})
+        else:
+            steps, problems = X.run_parse_history(ppool, rng, rng.randrange(3, 9))
+        res.nontrivial.add(("phist", json.dumps(steps, sort_keys=True)[:2000]))
+        if problems:
+            res.failures.append({"what": "parser history: " + problems[0]["what"], "kf": None,
+                                 "input": {"steps": steps[:30], "problems": problems[:3]}})
+    # the same texts in a fresh interpreter (no history) vs this process (after all histories)
+    probe = [[f, ls] for f, ls, _ in ppool[:60]]
+    fresh = X.fresh_interpreter_parse(probe)
+    if fresh is None:
+        res.disagreements.append({"stream": "text.parse-fresh-interpreter", "input": "probe", "model": "runs",
+                                  "code": "the fresh-interpreter probe failed"})
+    else:
+        for (f, ls), fr in zip(probe, fresh):
+            res.evaluations += 1
+            res.count("parser-fresh-interpreter")
+            here, _sub = X.real_parse(f, ls)
+            if here != fr:
+                res.failures.append({"what": "a text parses differently in this process (after earlier parses and "
+                                             "edits of their results) than in a fresh interpreter", "kf": None,
+                                     "input": {"fl": f, "text": ls, "here": here, "fresh_interpreter": fr}})
 
     # -------------------------------------------------- stream C: malformed / differently formed source
     all_mn = sorted({c.mnemonic for f in H.FLAVOURS for c in H.flavour_classes(f)})
